@@ -120,6 +120,12 @@ pub struct CompCond {
 #[derive(Serialize, Deserialize, Clone, Debug, PartialEq, Default)]
 pub struct WorldSpec {
     pub obstacles: Vec<Obstacle>,
+    /// the metric shapes (balls, shells) are defined with the HARNESS's own implementation of
+    /// the space metric (sqrt of the sum of squared weighted component distances, written
+    /// independently of the library) instead of the library's `distance`: the simulated user's
+    /// notion of where things are then does not inherit a defect of the library's metric
+    #[serde(default)]
+    pub harness_metric: bool,
 }
 
 #[derive(Serialize, Deserialize, Clone, Copy, Debug, PartialEq)]
@@ -146,6 +152,9 @@ pub struct GoalSpec {
     pub radius: f64,
     pub sampler: GoalSampler,
     pub sampler_seed: u64,
+    /// the goal predicate measures with the harness's own metric (see `WorldSpec`)
+    #[serde(default)]
+    pub harness_metric: bool,
     /// additional requirement on one component (goal predicates that look at a component the
     /// space metric ignores); goal samples satisfy it
     #[serde(default, skip_serializing_if = "Option::is_none")]
